@@ -34,3 +34,14 @@ Definition axis_kept (name axis : string) : nat :=
   | None => 2
   | Some (o, m) => match gate o m (Some axis) with Some _ => 1 | None => 0 end
   end.
+
+(* which core method `-type <t>` finally calls, and whether the selected Output class defines it (otherwise the
+   abstract base class answers with an explanatory error exit): 1 = defined, 0 = not defined, 2 = unknown name *)
+Definition smem (x : string) (l : list string) : bool := existsb (String.eqb x) l.
+Definition core_of (ty : string) : string :=
+  match find (fun p => String.eqb ty (fst p)) type_dispatch with Some p => snd p | None => default_core end.
+Definition type_supported (name ty : string) : nat :=
+  match select name with
+  | None => 2
+  | Some (o, _) => if smem (core_of ty) (oc_methods o) then 1 else 0
+  end.
